@@ -33,7 +33,9 @@ RULE = ('histories: Hypothesis draws a program of client operations (start '
         'by client or server, or loss of the transport after byte k of '
         'either direction. cuts (enumerated): 6 scripted sessions cut at '
         'every record boundary and every byte of the first 3 encrypted '
-        'records of each direction. Non-trivial = >=1 awaited operation was '
+        'records of each direction (server behaviours incl. EOF sent early '
+        'and output flooding, so that writers block in drain() after the '
+        'peer\'s EOF). Non-trivial = >=1 awaited operation was '
         'pending when the terminal event happened; distinct = (set of '
         'pending operation kinds, terminal event kind, cut position class).')
 ASSUMPTIONS = ['no real I/O or timer exists in the harness loop, so quiescent '
